@@ -6,6 +6,7 @@ CONSTANTS
   WriterTyped = {FALSE}
   Namings = {"suffixlast"}
   RetireRule = "suffix"
+  Reps = {"list"}
   Reversed = {FALSE}
   FnStep = 2
   Isolated = TRUE
